@@ -375,6 +375,8 @@ static void longrun(int A)
 void cpp_xof_copy(int a, const unsigned char *m, size_t n, unsigned char *out, size_t outlen, int mode);
 void cpp_hash_chunks(int a, const unsigned char *m, size_t n, size_t s1, size_t s2, int form, unsigned char *out);
 void cpp_xof_chunks(int a, const unsigned char *m, size_t n, size_t s1, size_t s2, int form, unsigned char *out);
+void cpp_xof(int a, size_t declared, const unsigned char *m, size_t n, unsigned char *out, size_t outlen);
+void cpp_hash(int a, const unsigned char *m, size_t n, unsigned char *out);
 void cpp_hash_copy(int a, const unsigned char *m, size_t n, unsigned char *out, int mode);
 static void cppcopy(void)
 {
@@ -393,6 +395,14 @@ static void cppcopy(void)
         ref_xof(A, data, n, exp, 32); cpp_xof_chunks(A, data, n, s1, s2, form, got);
         if (memcmp(got, exp, 32)) { snprintf(kb, sizeof kb, "chunking:cpp:xof%s", A ? "a" : ""); hx_fail(kb, "absorb / squeeze overload %d: %zu bytes cut at %zu and %zu differ from the single-call result", form, n, s1, s2); }
       } }
+    /* reset(): a used (and, every other time, already squeezed / finalised) C++ object that is reset continues like a fresh one -- plain classes and the fixed-length templates */
+    for (int A = 0; A < 2; A++) for (size_t n = 0; n <= 24; n += 4) for (int rep = 0; rep < 4; rep++) {
+        static const size_t decl[3] = {0, 32, 64};
+        for (int d = 0; d < 3; d++) { ref_xof_fixed(A, decl[d], MSG, n, exp, 40); cpp_xof(A, decl[d], MSG, n, got, 40); hx_stat("evaluations", 1); hx_stat("transitions", 1);
+            if (memcmp(got, exp, 40)) { snprintf(kb, sizeof kb, "chunking:cpp:xof%s", A ? "a" : ""); hx_fail(kb, "declared length %zu: an object that was used and reset() does not continue like a fresh one (%zu bytes)", decl[d], n); } }
+        ref_hash(A, MSG, n, exp); cpp_hash(A, MSG, n, got);
+        if (memcmp(got, exp, 32)) { snprintf(kb, sizeof kb, "chunking:cpp:hash%s", A ? "a" : ""); hx_fail(kb, "an object that was used and reset() does not continue like a fresh one (%zu bytes)", n); }
+    }
     hx_stat("states", 1); hx_stat("traces_validated", 1);
     hx_sample("C++ hash/hasha/xof/xofa objects: copy construction, assignment over a used object, self-assignment at the midpoint of messages of 0..40 bytes");
 }
